@@ -171,7 +171,7 @@ fn clone<N: ArrayLength, A: Elem>(boxed: bool) -> Result<CaseInfo, String> {
     if !ok || cl_ids.len() != n {
         return Err(format!("clone element i is not a clone of source element i: clone {cl_ids:?}, source {ids:?}"));
     }
-    if A::TRACKED || A::NAME == "TrZ" {
+    if A::COUNTS_CLONES {
         if ledger::clone_calls() - before != n as u64 {
             return Err(format!("T::clone was called {} times for N = {n}", ledger::clone_calls() - before));
         }
@@ -286,6 +286,9 @@ pub fn run(ctx: &mut Ctx) {
             c!(format!("map-{fname}"), "A=u32,U=Tr4", map::<N, u32, Tr<0>>(form));
             c!(format!("map-{fname}"), "A=u32,U=u32", map::<N, u32, u32>(form));
             c!(format!("map-{fname}"), "A=Tr24,U=Tr8", map::<N, Tr<5>, Tr<1>>(form));
+            c!(format!("map-{fname}"), "A=Nd,U=Nd", map::<N, Nd, Nd>(form));
+            c!(format!("fold-{fname}"), "A=Nd", fold::<N, Nd>(form));
+            c!(format!("generate-{fname}"), "U=Nd", generate::<N, Nd>(form));
             c!(format!("fold-{fname}"), "A=Tr4", fold::<N, Tr<0>>(form));
             c!(format!("fold-{fname}"), "A=u32", fold::<N, u32>(form));
             c!(format!("fold-{fname}"), "A=Tr24", fold::<N, Tr<5>>(form));
@@ -297,6 +300,10 @@ pub fn run(ctx: &mut Ctx) {
         c!("clone", "A=Tr4", clone::<N, Tr<0>>(false));
         c!("clone", "A=u32", clone::<N, u32>(false));
         c!("clone", "A=TrZ", clone::<N, TrZ>(false));
+        c!("clone", "A=Nd", clone::<N, Nd>(false));
+        c!("clone-box", "A=Nd", clone::<N, Nd>(true));
+        c!("default", "U=Nd", default_like::<N, Nd>(false));
+        c!("default_boxed", "U=Nd", default_like::<N, Nd>(true));
         c!("clone-box", "A=Tr4", clone::<N, Tr<0>>(true));
         c!("clone-box", "A=u32", clone::<N, u32>(true));
         macro_rules! zips {
@@ -308,6 +315,8 @@ pub fn run(ctx: &mut Ctx) {
                 c!($label, "A=u32,B=u32,U=Tr4", zip_wrapped(|| $fname::<N, u32, u32, Tr<0>>()));
                 c!($label, "A=Tr24,B=Tr8,U=u32", zip_wrapped(|| $fname::<N, Tr<5>, Tr<1>, u32>()));
                 c!($label, "A=TrZ,B=Tr4,U=Tr4", zip_wrapped(|| $fname::<N, TrZ, Tr<0>, Tr<0>>()));
+                c!($label, "A=Nd,B=Nd,U=Nd", zip_wrapped(|| $fname::<N, Nd, Nd, Nd>()));
+                c!($label, "A=Nd,B=Tr4,U=Nd", zip_wrapped(|| $fname::<N, Nd, Tr<0>, Nd>()));
             };
         }
         zips!(zip_oo, "zip-owned-owned");
